@@ -100,8 +100,8 @@ Qed.
 Definition same_sign_small (fx fy : fmt) : Prop :=
   sg fx = sg fy /\ 1 <= nw fx <= 26 /\ 1 <= nw fy <= 26 /\ 0 <= nf fx <= nw fx /\ 0 <= nf fy <= nw fy.
 
-Lemma truediv_raw_elem fx fy a b : same_sign_small fx fy -> in_range fx a -> in_range fy b -> b <> 0 ->
-  div_raw_elem DTrue fx fy (nf (grow_truediv fx fy)) a b
+Lemma truediv_raw_elem exa exb exq fx fy a b : same_sign_small fx fy -> in_range fx a -> in_range fy b -> b <> 0 ->
+  div_raw_elem exa exb exq DTrue fx fy (nf (grow_truediv fx fy)) a b
   = Ok (if sg fx then MI (truediv_floor fx a fy b) else MU (truediv_floor fx a fy b)).
 Proof.
   intros (Hs & Hwx & Hwy & Hfx & Hfy) Hra Hrb Hb. unfold div_raw_elem.
@@ -139,7 +139,7 @@ Theorem truediv_raw_model fx fy a b r o : same_sign_small fx fy -> in_range fx a
     w_codes w = [truediv_floor fx a fy b] /\ w_ovf w = false /\ w_unf w = false.
 Proof.
   intros Hss Hra Hrb Hb. pose proof Hss as (Hs & Hwx & Hwy & Hfx & Hfy).
-  unfold div_raw. cbn [map2M]. rewrite (truediv_raw_elem fx fy a b Hss Hra Hrb Hb). cbn [bind].
+  unfold div_raw. cbv zeta. cbn [map2M]. rewrite (truediv_raw_elem _ _ _ fx fy a b Hss Hra Hrb Hb). cbn [bind].
   pose proof (truediv_in_range fx a fy b ltac:(lia) ltac:(lia) Hra Hrb Hb) as Hin.
   set (z := truediv_floor fx a fy b) in *.
   pose proof (n_int_width fx) as Nx. pose proof (n_int_width fy) as Ny.
